@@ -164,7 +164,7 @@ var plainDests = []string{"/u", "http://x.y/z", "a/b", "#frag", "/p?q=1", "u", "
 // after every other kind (an escape after a character to encode, an encoded
 // character last, ...), which the fixed pool above cannot. plainDestUnits is the
 // subset the formatter can write back.
-var plainDestUnits = []string{"/", "a", "b.c", "?q=1", "&r=2", "#f", "é", "ß", "\U00010100", "%20", "%C3%A9", "%4", "%", "%zz", "%e", "|", "\"", "\\", "*", "_", "~", "'", "+", ":", "@", "=", "$", ",", ";", "!", "[", "]", "^", "`", "{", " ", "(b)", ">", "<"}
+var plainDestUnits = []string{"/", "a", "b.c", "?q=1", "&r=2", "#f", "é", "ß", "\U00010100", "\ufffd", "%20", "%C3%A9", "%4", "%", "%zz", "%e", "|", "\"", "\\", "*", "_", "~", "'", "+", ":", "@", "=", "$", ",", ";", "!", "[", "]", "^", "`", "{", " ", "(b)", ">", "<"}
 var destUnits = append(append([]string{}, plainDestUnits...), "(", ")")
 
 func (g *Gen) dest() string {
